@@ -315,6 +315,23 @@ theorem C09_mc_scan_rows_are_nested_independent_runs (w : Worker) (inner : List 
   | error e => rfl
   | ok c1 => rfl
 
+/-- `mc.scan_steady_state`, parent side: the task's answer, unpickled next to the caller's model, IS the independent runs
+    of the inner rows on the sample's model `c1` (in a heap that also holds the caller's model and the task's copy of
+    it) — so `C09_rows_equal_independent_runs` applies verbatim to the views the parent reads: each equals the view of a
+    separate run of that inner row on a fresh copy of `c1`, and the caller's model (cell 0) is untouched -/
+theorem C09_mc_scan_answer_is_independent_runs (w : Worker) (inner : List (Label × Row)) (c c1 : Content) (sample : Row)
+    (ha : applyRow c sample = .ok c1) :
+    (mcScanChild shippedCopyFirst w inner c sample).map (transplant [c]) = independentRuns w [c, c, c1] c1 inner := by
+  rw [C09_mc_scan_rows_are_nested_independent_runs, ha]
+  simp only [independentRuns]
+  cases pureRows w c1 inner with
+  | error e => rfl
+  | ok ps =>
+    simp only [Except.map, transplant, placeAll]
+    congr 1
+    rw [placeFrom_shift]
+    simp
+
 /-! ### facts regenerated from scan.py / mc.py / parallel.py on every run (`translate/c09.py` → `Generated/C09Facts.lean`) -/
 
 open Mxl.Generated.C09 in
